@@ -39,6 +39,24 @@ fn sub_frame(fam: Fam, typ: u8, filter: &[u8]) -> Vec<u8> {
     sub_frame_multi(fam, typ, &[filter])
 }
 
+/// the filter in a frame in which the packet's other optional parts are present too (v5: subscription identifier and
+/// user properties, every subscription-option bit that may be set; v3: QoS 2)
+fn sub_frame_rich(fam: Fam, typ: u8, filter: &[u8]) -> Vec<u8> {
+    let props = if fam == Fam::V5 {
+        let mut items = vec![Prop { id: 0x26, val: PVal::Pair(b"k".to_vec(), b"v".to_vec()) }, Prop { id: 0x26, val: PVal::Pair(b"k".to_vec(), b"".to_vec()) }];
+        if typ == model::T_SUBSCRIBE {
+            items.insert(1, Prop { id: 0x0B, val: PVal::VarInt(268_435_455, 0) });
+        }
+        Some(Props { items, declared: None, width: 0 })
+    } else {
+        None
+    };
+    // No Local is left clear: it is not allowed on a shared subscription and the filter under test may be one
+    let opt = if fam == Fam::V5 { 0b0010_1010 } else { 2 };
+    let body = if typ == model::T_SUBSCRIBE { Body::Subscribe { pid: 65_535, props, topics: vec![(filter.to_vec(), opt)] } } else { Body::Unsubscribe { pid: 65_535, props, topics: vec![filter.to_vec()] } };
+    model::serialize(&WPacket::new(fam, (typ << 4) | 2, body)).unwrap_or_default()
+}
+
 fn sub_frame_multi(fam: Fam, typ: u8, filters: &[&[u8]]) -> Vec<u8> {
     let props = if fam == Fam::V5 { Some(Props::default()) } else { None };
     let body = if typ == model::T_SUBSCRIBE {
@@ -136,6 +154,14 @@ pub fn check_filter(s: &str, packets: bool, all_fronts: bool) -> Result<bool, St
             let a5 = packet_decision::<V5>(&sub_frame(Fam::V5, typ, s.as_bytes()), &e5, &what, all_fronts)?;
             if a3 != want || a5 != want {
                 return Err(format!("{}: v3 {} / v5 {} but the specification says {}", what, a3, a5, if want { "valid" } else { "invalid" }));
+            }
+            if s.len() <= 60_000 {
+                let what = format!("{} carrying filter {:?} next to every other optional part of the packet", model::type_name(typ), s);
+                let a3 = packet_decision::<V3>(&sub_frame_rich(Fam::V3, typ, s.as_bytes()), &e3, &what, all_fronts)?;
+                let a5 = packet_decision::<V5>(&sub_frame_rich(Fam::V5, typ, s.as_bytes()), &e5, &what, all_fronts)?;
+                if a3 != want || a5 != want {
+                    return Err(format!("{}: v3 {} / v5 {} but the specification says {}", what, a3, a5, if want { "valid" } else { "invalid" }));
+                }
             }
             if all_fronts && s.len() <= 60_000 {
                 // the filter in first, middle and last position of a longer list, and twice
@@ -453,6 +479,61 @@ fn name_frames(s: &[u8]) -> Vec<(&'static str, Fam, Vec<u8>, bool)> {
             v.push(("will topic (MQTT 3.1 CONNECT)", fam, model::serialize(&cn).unwrap_or_default(), false));
         }
     }
+    // the same fields in frames in which every other optional field / property of the packet is present as well
+    let full_pub = Props {
+        items: vec![
+            Prop { id: 0x01, val: PVal::Byte(0) },
+            Prop { id: 0x02, val: PVal::U32(60) },
+            Prop { id: 0x23, val: PVal::U16(7) },
+            Prop { id: 0x09, val: PVal::Bin(vec![1, 2, 3]) },
+            Prop { id: 0x0B, val: PVal::VarInt(300, 0) },
+            Prop { id: 0x03, val: PVal::Str(b"text/plain".to_vec()) },
+            Prop { id: 0x26, val: PVal::Pair(b"k".to_vec(), b"v".to_vec()) },
+        ],
+        declared: None,
+        width: 0,
+    };
+    let mut with_resp = full_pub.clone();
+    with_resp.items.insert(3, Prop { id: 0x08, val: PVal::Str(b"reply/to".to_vec()) });
+    let pb = WPacket::new(Fam::V5, 0x3D, Body::Publish { topic: s.to_vec(), pid: Some(9), props: Some(with_resp), payload: b"payload".to_vec() });
+    v.push(("PUBLISH topic (all properties present, QoS 2, DUP, RETAIN)", Fam::V5, model::serialize(&pb).unwrap_or_default(), false));
+    let pb = WPacket::new(Fam::V3, 0x3D, Body::Publish { topic: s.to_vec(), pid: Some(9), props: None, payload: b"payload".to_vec() });
+    v.push(("PUBLISH topic (QoS 2, DUP, RETAIN)", Fam::V3, model::serialize(&pb).unwrap_or_default(), false));
+    let mut resp_full = full_pub.clone();
+    resp_full.items.insert(2, Prop { id: 0x08, val: PVal::Str(s.to_vec()) });
+    let pb = WPacket::new(Fam::V5, 0x32, Body::Publish { topic: b"t".to_vec(), pid: Some(9), props: Some(resp_full), payload: b"x".to_vec() });
+    v.push(("PUBLISH response topic (all properties present)", Fam::V5, model::serialize(&pb).unwrap_or_default(), true));
+    let full_will = |topic: &[u8], resp: Option<&[u8]>| -> Vec<u8> {
+        let mut items = vec![
+            Prop { id: 0x18, val: PVal::U32(5) },
+            Prop { id: 0x01, val: PVal::Byte(1) },
+            Prop { id: 0x02, val: PVal::U32(60) },
+            Prop { id: 0x03, val: PVal::Str(b"t".to_vec()) },
+            Prop { id: 0x09, val: PVal::Bin(vec![9]) },
+            Prop { id: 0x26, val: PVal::Pair(b"k".to_vec(), b"v".to_vec()) },
+        ];
+        if let Some(r) = resp {
+            items.insert(3, Prop { id: 0x08, val: PVal::Str(r.to_vec()) });
+        }
+        let cn = WPacket::new(
+            Fam::V5,
+            0x10,
+            Body::Connect {
+                name: b"MQTT".to_vec(),
+                level: 5,
+                flags: 0b1111_0110,
+                keep_alive: 1,
+                props: Some(Props { items: vec![Prop { id: 0x11, val: PVal::U32(1) }, Prop { id: 0x26, val: PVal::Pair(b"a".to_vec(), b"b".to_vec()) }], declared: None, width: 0 }),
+                client_id: b"client".to_vec(),
+                will: Some(Will { props: Some(Props { items, declared: None, width: 0 }), topic: topic.to_vec(), payload: b"bye".to_vec() }),
+                username: Some(b"user".to_vec()),
+                password: Some(b"pw".to_vec()),
+            },
+        );
+        model::serialize(&cn).unwrap_or_default()
+    };
+    v.push(("will topic (all will properties, user name and password present)", Fam::V5, full_will(s, Some(b"r")), false));
+    v.push(("will response topic (all will properties present)", Fam::V5, full_will(b"w", Some(s)), true));
     let rp = Props { items: vec![Prop { id: 0x08, val: PVal::Str(s.to_vec()) }], declared: None, width: 0 };
     let pb = WPacket::new(Fam::V5, 0x30, Body::Publish { topic: b"t".to_vec(), pid: None, props: Some(rp.clone()), payload: vec![] });
     v.push(("PUBLISH response topic", Fam::V5, model::serialize(&pb).unwrap_or_default(), true));
@@ -493,10 +574,33 @@ fn body_level_name_decisions(s: &str) -> Result<Vec<(&'static str, bool)>, Strin
         let (hl, _) = crate::refdec::frame_bounds(&frame).map_err(|e| format!("MQV-INTERNAL {:?}", e))?;
         let body = &frame[hl..];
         match (path, fam) {
-            ("PUBLISH topic", Fam::V3) => {
+            ("PUBLISH topic", Fam::V3) | ("PUBLISH topic (QoS 2, DUP, RETAIN)", Fam::V3) => {
                 let h = v3::Header::decode(&frame).map_err(|e| format!("{:?}", e))?;
                 let mut r: &[u8] = body;
                 out.push(classify("v3::Publish::decode_async", block_on(v3::Publish::decode_async(&mut r, h)).map(|_| ()).map_err(|e| format!("{:?}", e)))?);
+            }
+            ("PUBLISH topic (all properties present, QoS 2, DUP, RETAIN)", Fam::V5) | ("PUBLISH response topic (all properties present)", Fam::V5) => {
+                let h = v5::Header::decode(&frame).map_err(|e| format!("{:?}", e))?;
+                let mut r: &[u8] = body;
+                out.push(classify("v5::Publish::decode_async (all properties present)", block_on(v5::Publish::decode_async(&mut r, h)).map(|_| ()).map_err(|e| format!("{:?}", e)))?);
+                if resp {
+                    // the property set alone: topic "t" (2+1 bytes) and the packet identifier precede it
+                    let mut r: &[u8] = &body[5..];
+                    out.push(classify("v5::PublishProperties::decode_async (all properties present)", block_on(v5::PublishProperties::decode_async(&mut r, v5::PacketType::Publish)).map(|_| ()).map_err(|e| format!("{:?}", e)))?);
+                }
+            }
+            ("will topic (MQTT 3.1 CONNECT)", Fam::V3) => {
+                let mut r: &[u8] = body;
+                out.push(classify("v3::Connect::decode_async (MQTT 3.1)", block_on(v3::Connect::decode_async(&mut r)).map(|_| ()).map_err(|e| format!("{:?}", e)))?);
+                let mut r: &[u8] = &body[9..]; // after protocol name (2+6) and level
+                out.push(classify("v3::Connect::decode_with_protocol (MQTT 3.1)", block_on(v3::Connect::decode_with_protocol(&mut r, Protocol::V310)).map(|_| ()).map_err(|e| format!("{:?}", e)))?);
+            }
+            ("will topic (all will properties, user name and password present)", Fam::V5) | ("will response topic (all will properties present)", Fam::V5) => {
+                let h = v5::Header::decode(&frame).map_err(|e| format!("{:?}", e))?;
+                let mut r: &[u8] = body;
+                out.push(classify("v5::Connect::decode_async (everything present)", block_on(v5::Connect::decode_async(&mut r, h)).map(|_| ()).map_err(|e| format!("{:?}", e)))?);
+                let mut r: &[u8] = &body[7..];
+                out.push(classify("v5::Connect::decode_with_protocol (everything present)", block_on(v5::Connect::decode_with_protocol(&mut r, h, Protocol::V500)).map(|_| ()).map_err(|e| format!("{:?}", e)))?);
             }
             ("PUBLISH topic", Fam::V5) | ("PUBLISH response topic", _) => {
                 let h = v5::Header::decode(&frame).map_err(|e| format!("{:?}", e))?;
@@ -514,7 +618,7 @@ fn body_level_name_decisions(s: &str) -> Result<Vec<(&'static str, bool)>, Strin
                 let mut r: &[u8] = &body[7..]; // after protocol name (2+4) and level
                 out.push(classify("v3::Connect::decode_with_protocol", block_on(v3::Connect::decode_with_protocol(&mut r, Protocol::V311)).map(|_| ()).map_err(|e| format!("{:?}", e)))?);
             }
-            (_, Fam::V5) => {
+            ("will topic", Fam::V5) | ("will response topic", Fam::V5) => {
                 // will topic / will response topic in a v5 CONNECT
                 let h = v5::Header::decode(&frame).map_err(|e| format!("{:?}", e))?;
                 let mut r: &[u8] = body;
@@ -529,7 +633,7 @@ fn body_level_name_decisions(s: &str) -> Result<Vec<(&'static str, bool)>, Strin
                     out.push(classify("v5::WillProperties::decode_async", block_on(v5::WillProperties::decode_async(&mut r)).map(|_| ()).map_err(|e| format!("{:?}", e)))?);
                 }
             }
-            _ => {}
+            (other, _) => return Err(format!("MQV-INTERNAL: no body-level decoder is wired for the carrier {:?}", other)),
         }
     }
     Ok(out)
